@@ -77,6 +77,12 @@ pub fn make_tz(spec: &Spec) -> TimeZone {
             let bytes = zonegen::synth_tzif(k, false);
             TimeZone::tzif(&format!("Named/{}", name % 2), &bytes).unwrap()
         }
+        Spec::TzifFooter(i) => {
+            let i = i as usize % FOOTERS.len();
+            let (rule, so, sa, d_o, da) = FOOTERS[i];
+            let bytes = zonegen::synth_tzif_footer(rule, so, sa, d_o, da);
+            TimeZone::tzif(&format!("Footer/{i}"), &bytes).unwrap()
+        }
         Spec::TzifBundled(i) => {
             let name = STATIC_NAMES[(i % N_STATIC) as usize];
             let (canonical, bytes) = jiff_tzdb::get(name).expect("bundled zone");
@@ -287,6 +293,21 @@ pub fn zoned_make(z: &Zoned, which: u8, arg: i16) -> Option<Zoned> {
         27 => z.round(ZonedRound::new().smallest(Unit::Second).mode(RoundMode::Floor)).ok(),
         28 => z.with().day(1 + (h.rem_euclid(28)) as i8).minute(0).build().ok(),
         29 => z.with().year((2000 + h.rem_euclid(40)) as i16).build().ok(),
+        30 => z
+            .with()
+            .time(jiff::civil::time(2, 30, 0, 0))
+            .disambiguation(Disambiguation::Later)
+            .offset_conflict(OffsetConflict::PreferOffset)
+            .build()
+            .ok(),
+        31 => z
+            .with()
+            .date(jiff::civil::date(2024, 3, 10))
+            .disambiguation(Disambiguation::Reject)
+            .build()
+            .ok(),
+        32 => z.with().offset(Offset::constant(3)).offset_conflict(OffsetConflict::Reject).build().ok(),
+        33 => z.with().nanosecond(7).offset_conflict(OffsetConflict::AlwaysOffset).build().ok(),
         _ => None,
     }
 }
@@ -501,6 +522,34 @@ pub fn apply<E: Env>(me: u8, op: &Op, slots: &mut Slots, env: &mut E) -> bool {
                 env.fail("eq_reflexive", format!("{:?} != itself", x.spec));
             }
             env.eq_result((&x.spec, x.zone), (&y.spec, y.zone), ab, ba);
+        }
+        Op::CloneFrom { src, dst } => {
+            let (s, d) = (ix(*src), ix(*dst));
+            if s == d {
+                return false;
+            }
+            let (Some(x), Some(y)) = (slots[s].as_ref(), slots[d].as_ref()) else {
+                return false;
+            };
+            if !x.val.has_handle()
+                || std::mem::discriminant(&x.val) != std::mem::discriminant(&y.val)
+            {
+                return false;
+            }
+            let (szone, sspec) = (x.zone, x.spec.clone());
+            let mut target = slots[d].take().unwrap();
+            let dzone = target.zone;
+            match (&mut target.val, &slots[s].as_ref().unwrap().val) {
+                (Val::Tz(a), Val::Tz(b)) => a.clone_from(b),
+                (Val::Zoned(a), Val::Zoned(b)) => a.clone_from(b),
+                (Val::Amb(a), Val::Amb(b)) => a.clone_from(b),
+                _ => unreachable!(),
+            }
+            env.handles(dzone, -1);
+            env.handles(szone, 1);
+            target.zone = szone;
+            target.spec = sspec;
+            slots[d] = Some(target);
         }
         Op::Query { a, q, t } => {
             let Some(x) = slots[ix(*a)].as_ref() else { return false };
